@@ -152,7 +152,7 @@ struct World
             memcpy(tmp, &x, 4);
           }
       }
-    const bool swap = !(bo == ByteOrder::native);
+    const bool swap = !bo.is_native_order();
     for (int i = 0; i < esz; ++i)
       out[i] = swap ? tmp[esz - 1 - i] : tmp[i];
   }
@@ -446,8 +446,9 @@ create_world(World& w, const Plan& p)
   w.store = (int)p.c("store", 0) % 4;
   w.by_view = p.c("by_view", 0) != 0;
   w.type = NumericType(TYPES[p.c("dtype", 0) % 4]);
-  w.bo = p.c("swap", 0) ? (ByteOrder::native == ByteOrder::little_endian ? ByteOrder::big_endian : ByteOrder::little_endian)
-                         : ByteOrder::native;
+  w.bo = ByteOrder(p.c("swap", 0) ? ByteOrder::swapped : ByteOrder::native);
+  if (!w.bo.is_native_order())
+    sim::probe("non_native_byte_order");
   static const float scales[] = { 1.f, 0.5f, 2.f, 0.25f };
   w.scale = w.type.id == NumericType::FLOAT ? 1.f : scales[p.c("scale", 0) % 4];
   w.offset = w.store == FSTREAM || w.store == SSTREAM ? p.c("offset", 0) : 0;
